@@ -88,6 +88,31 @@ def init(vc):
     vc.check('post/last-initially-zero', self.attrs['last'] == 0)
 
 
+@harness('C31', 'one-lock-per-generator', functions=[Q + '.__init__', Q + '.__call__'], native='contracts.native.c31:replay_first_calls')
+def one_lock(vc):
+    """the lock invariant of `call` presupposes that every caller takes the SAME lock.  ensures the generator's lock exists when the constructor
+    returns (callers racing on the first calls cannot each make their own): no lock is created during a call, and two calls acquire one and the
+    same lock object, once each"""
+    import threading
+    from cassandra.timestamps import MonotonicTimestampGenerator
+    made = []
+
+    def mk():
+        made.append(LockModel('lock#%d' % len(made), reentrant=False))
+        return made[-1]
+    vc.stub(threading.Lock, mk)
+    vc.stub(threading.RLock, mk)
+    self = vc.obj(MonotonicTimestampGenerator)
+    vc.call(Q + '.__init__', self)
+    at_construction = len(made)
+    vc.stub(time.time, lambda: 15.0)
+    vc.call(Q + '.__call__', self)
+    vc.call(Q + '.__call__', self)
+    vc.check('post/no-lock-created-after-the-constructor', len(made) == at_construction, note='locks created: %d in __init__, %d later' % (at_construction, len(made) - at_construction))
+    vc.check('post/both-calls-took-the-same-lock', len([l for l in made if l.acquisitions >= 2]) == 1 and all(l.depth == 0 for l in made),
+             note=str([(l.name, l.acquisitions) for l in made]))
+
+
 @harness('C31', 'frame', functions=[])
 def frame(vc):
     """frame: `last` of the generator is written only by __init__ and _next_timestamp; _next_timestamp is called only from __call__ (under the lock)"""
